@@ -275,7 +275,7 @@ pub fn main(args: &Args) -> Report {
     rep.out = out;
     rep.floor("(query, options) pairs", rep.counter("query_option_pairs"), if t { 30_000 } else { 3000 });
     for kind in ["rows", "collection", "apply", "timeout"] {
-        rep.floor(&format!("limit kind {kind} tripped"), rep.counter(&format!("limit_tripped.{kind}")), if t { 300 } else { if kind == "timeout" { 5 } else { 30 } });
+        rep.floor(&format!("limit kind {kind} tripped"), rep.counter(&format!("limit_tripped.{kind}")), if kind == "timeout" { if t { 50 } else { 5 } } else if t { 300 } else { 30 });
     }
     rep.floor("pairs where the limit equals the true size", rep.counter("pairs_with_limit_equal_to_true_size"), if t { 300 } else { 100 });
     rep
